@@ -1527,6 +1527,9 @@ class Node:
             for other_peer in self.peers.values():
                 if other_peer.connection is conn:
                     other_peer.connection = None
+                    other_peer.last_disconnect = int(time.time())
+                    if other_peer.disconnect_reason is None:
+                        other_peer.disconnect_reason = disconnect_reason
             peer = self._find_connection_peer(conn)
             if peer and peer.connection in (conn, None):
                 # unset so that a new connection may be made later
